@@ -41,7 +41,7 @@ long verif_live_heap(void) { return 0; }
 void verif_note(const char*, long) {}
 uint64_t verif_concrete(uint64_t v) { return v; }
 int verif_is_replay(void) { return 1; }
-void* verif_alloc_page_end(size_t n, size_t dist) {
+void* verif_alloc_page_end(size_t n, size_t dist, size_t) {
   char* p = (char*)mmap(0, 3 * 4096, PROT_READ | PROT_WRITE, MAP_PRIVATE | MAP_ANONYMOUS, -1, 0);
   mprotect(p + 2 * 4096, 4096, PROT_NONE);
   memset(p, 0xAA, 2 * 4096);
@@ -49,6 +49,7 @@ void* verif_alloc_page_end(size_t n, size_t dist) {
 }
 void verif_map_slack(const void*, size_t) {}
 void verif_check_independent(uint64_t, const char*) {}
+void verif_check_independent_mem(const void*, size_t, const char*) {}
 }
 #include <dlfcn.h>
 typedef int (*hfn)(void);
